@@ -812,6 +812,8 @@ def enumerate_paths(prog, body, variant=None, entry=0, max_visits=2, inline=1, l
                     continue
                 if rv["k"] == "agg" and rv["ak"] in ("closure", "coroutine"):
                     events = events + [("mk", rv["def"], (body.id, bid))]
+                if not lhs["p"] and lhs["l"] == 0 and body.kind != "coroutine":
+                    events = events + [("ret", prog.link(body.rvalue_expr(rv, (body.id, bid))))]
                 if rv["k"] == "setdiscr" and cor:
                     last_state = rv["vi"]
                     continue
